@@ -68,6 +68,37 @@ def _make_data(cfg):
         return out
     if kind == "integer":
         return rng.randint(-3, 4, size=shape).astype(float)
+    # ---- unusual STRUCTURE (legal inputs): symmetric, constant, one dominant component, orthogonal components, banded
+    if kind == "symmetric":          # cubic shapes: invariant under every permutation of the modes
+        import itertools
+        base = rng.standard_normal(shape)
+        return sum(np.transpose(base, p_) for p_ in itertools.permutations(range(len(shape)))) / 6.0
+    if kind == "constant":
+        return np.full(shape, 0.7)
+    if kind == "dominant":           # one component 1e4 times larger than the rest
+        fs = [rng.random_sample((s, 3)) + 0.1 for s in shape]
+        out = np.zeros(shape)
+        for j, wj in enumerate((1e4, 1.0, 0.5)):
+            comp = fs[0][:, j] * wj
+            for f in fs[1:]:
+                comp = np.multiply.outer(comp, f[:, j])
+            out += comp
+        return out
+    if kind == "orthogonal":         # CP components with orthonormal factors
+        r = min(min(shape), 3)
+        fs = [np.linalg.qr(rng.standard_normal((s, r)))[0] for s in shape]
+        out = np.zeros(shape)
+        for j in range(r):
+            comp = fs[0][:, j] * (j + 1.0)
+            for f in fs[1:]:
+                comp = np.multiply.outer(comp, f[:, j])
+            out += comp
+        return out + 1e-3 * rng.standard_normal(shape)
+    if kind == "banded":             # non-negative, zero away from the "diagonal"
+        idx = np.indices(shape)
+        x = rng.random_sample(shape) + 0.1
+        x[np.abs(idx[0] - idx[1]) > 1] = 0.0
+        return x
     if kind == "counts":           # non-negative counts (used with data_dtype="int64": an integer array)
         return rng.randint(0, 6, size=shape).astype(float)
     if kind == "complex":
@@ -304,11 +335,28 @@ WRAPPERS = {"parafac": "CP", "nn_parafac": "CP_NN", "nn_parafac_hals": "CP_NN_HA
             "nn_tucker": "Tucker_NN", "nn_tucker_hals": "Tucker_NN_HALS", "parafac2": "Parafac2", "rand_parafac": "RandomizedCP"}
 
 
+class StaleWrapperAttribute(Exception):
+    pass
+
+
+def _flat_arrays(dec):
+    """All arrays of a decomposition object / tuple, in order."""
+    out = []
+    if dec is None:
+        return out
+    if isinstance(dec, np.ndarray) or np.isscalar(dec):
+        return [np.asarray(dec)]
+    for part in dec:
+        out += _flat_arrays(part)
+    return out
+
+
 class _ViaWrapper:
     """Stands in for tensorly.decomposition: routes the functional call through the class wrapper (fit_transform + errors_)."""
 
-    def __init__(self, D):
+    def __init__(self, D, refit=False):
         self.D = D
+        self.refit = refit          # fit the SAME estimator object on other data first: attributes must not go stale
 
     def __getattr__(self, fname):
         import inspect
@@ -338,14 +386,28 @@ class _ViaWrapper:
             if "verbose" in accepted:
                 extra["verbose"] = False
             est = cls(rank, **{k: v for k, v in kw.items() if k in accepted}, **extra)
+            if self.refit:
+                other = [np.asarray(s_) * 1.7 + 0.3 for s_ in data] if isinstance(data, list) else np.asarray(data)[..., ::-1] * 1.7 + 0.3
+                try:
+                    est.fit_transform(other)
+                except Exception:
+                    pass
             dec = est.fit_transform(data)
+            # what the estimator exposes afterwards must be this fit's result, not an earlier one
+            stored = getattr(est, "decomposition_", dec)
+            try:
+                same = all(np.array_equal(np.asarray(a), np.asarray(b)) for a, b in zip(_flat_arrays(stored), _flat_arrays(dec)))
+            except Exception:
+                same = False
+            if not same:
+                raise StaleWrapperAttribute("decomposition_ is not the decomposition fit_transform returned")
             return dec, list(est.errors_)
         return call
 
 
 def _run_alg(cfg, data, cap, with_cb, tl, D):
     if cfg.get("wrapper"):
-        D = _ViaWrapper(D)
+        D = _ViaWrapper(D, refit=bool(cfg.get("wrapper_refit")))
     alg = cfg["alg"]
     seed = cfg["seed"]
     rank = cfg["rank"]
@@ -837,6 +899,8 @@ def record_trace(cfg, K=K_QUICK):
                 events.append({"id": "%s/cb%d" % (tid, j), "tr": tid, "ev": "Callback", "j": j,
                                "err": -1 if err is None else qe(err), "has_err": err is not None,
                                "true": qe(true_error(cfg, data, d, res.get("extra")))})
+        except np.linalg.LinAlgError:
+            pass        # a numerical break-down (singular block system) of the callback run: excused like in the prefix runs
         except Exception as ex:
             events.append({"id": tid + "/cb", "tr": tid, "ev": "Callback", "j": -1, "err": QNAN, "has_err": True, "true": QNAN})
     return events
@@ -1043,6 +1107,17 @@ def driver_configs(tier, seed, algs=None):
                         caps=[0, 1, 2, 3, 5, 8])
             base.update(kw)
             add(alg, **base)
+    # ---- legal inputs of unusual structure
+    for data, shp in (("symmetric", [4, 4, 4]), ("constant", [4, 5, 3]), ("dominant", [4, 5, 3]), ("orthogonal", [4, 5, 3]), ("banded", [4, 5, 3])):
+        nonneg = data in ("constant", "dominant", "banded")
+        for alg, kw in (("parafac", {"normalize": bool(rng.rand() < 0.5), "linesearch": bool(rng.rand() < 0.5), "caps": [0, 1, 2, 3, 6, 7, 8, 9]}),
+                        ("tucker", {"rank": [2, 2, 2]}), ("parafac", {"rank": 3, "callback": True}),
+                        ("tr_als", {"rank": [2, 2, 2, 2], "ls_solve": "lstsq", "init": "random"}), ("cmtf", {}), ("rand_parafac", {"max_stagnation": 0})) \
+                + ((("nn_parafac", {}), ("nn_parafac_hals", {}), ("nn_tucker", {"rank": [2, 2, 2]}), ("nn_tucker_hals", {"rank": [2, 2, 2], "algorithm": "active_set"}),
+                    ("constrained_parafac", {"constraints": {"non_negative": True}})) if nonneg else ()):
+            base = dict(shape=shp, rank=2, data=data, init=str(rng.choice(["svd", "random"])), tol="tiny", caps=[0, 1, 2, 3, 5, 8])
+            base.update(kw)
+            add(alg, **base)
     # ---- HOOI from a user start whose factors are not orthonormal, some modes kept at full rank
     for rk in ([4, 2, 2], [2, 5, 3], [4, 5, 3], [2, 2, 2]):
         add("tucker", shape=[4, 5, 3], rank=rk, data=str(rng.choice(["generic", "lowrank"])), init="user", init_kind="raw", tol="zero", raw_init=True,
@@ -1144,6 +1219,7 @@ def driver_configs(tier, seed, algs=None):
                     caps=[0, 1, 2, 3, 5, 8])
         base.update(kw)
         add(alg, **base)
+        add(alg, **dict(base, wrapper_refit=True, caps=[1, 3, 8]))      # the same estimator object fitted on other data first
 
     # ---- random sweep over the whole option space of every algorithm (what the curated list above does not pin)
     nrand = 12 if thorough else 3
